@@ -166,7 +166,7 @@ Definition net := N -> reply.
 (* an honest in-memory store of the produced chunks *)
 Definition store_net (C : codec) (chunks : list chunk) : net :=
   fun a => match find (fun c => k_addr c =? a) chunks with
-           | Some c => ROk (chunk_record (k_value c))
+           | Some c => ROk (chunk_record a (k_value c))
            | None => RErr GNotFound
            end.
 
@@ -320,7 +320,7 @@ Definition gerror_code (e : gerror) : string :=
 (* --- shadow reads (C15): the real model functions run on a toy instance that keeps only the shape
    of a case: n content chunks [1] .. [n] and the data map chunk [0]; hashing is injective on these
    tokens; each position of the network is honest or tampered in one of the ways below *)
-Inductive fmark := FAuth | FOtherHash | FKind | FHeader | FDeser | FNetErr (e : gerr).
+Inductive fmark := FAuth | FOtherHash | FOtherRecord | FKind | FHeader | FDeser | FNetErr (e : gerr).
 
 Definition toy_H (x : bytes) : N := match x with [v] => v + 100 | _ => 0 end.
 Definition toy_dm (n : N) : datamap :=
@@ -334,20 +334,22 @@ Definition toy_codec (n : N) : codec :=
      c_ser := fun b => b;
      c_deser := fun b => Some b |}.
 
-Definition toy_reply (content : bytes) (m : fmark) : reply :=
+(* `k`: the key the returned record carries (irrelevant to every read path) *)
+Definition toy_reply (k : N) (content : bytes) (m : fmark) : reply :=
   match m with
-  | FAuth => ROk (chunk_record content)
-  | FOtherHash => ROk (chunk_record [99])
-  | FKind => ROk {| r_hdr := Some 0; r_body := BChunk content |}
-  | FHeader => ROk {| r_hdr := None; r_body := BJunk |}
-  | FDeser => ROk {| r_hdr := Some KIND_CHUNK; r_body := BJunk |}
+  | FAuth => ROk (chunk_record k content)
+  | FOtherHash => ROk (chunk_record k [99])
+  | FOtherRecord => ROk (chunk_record (toy_H [99]) [99])     (* a whole well-formed record of another chunk *)
+  | FKind => ROk {| r_key := k; r_hdr := Some 0; r_body := BChunk content |}
+  | FHeader => ROk {| r_key := k; r_hdr := None; r_body := BJunk |}
+  | FDeser => ROk {| r_key := k; r_hdr := Some KIND_CHUNK; r_body := BJunk |}
   | FNetErr e => RErr e
   end.
 
 (* marks: positions 0..n-1 are the content chunks, position n the data map chunk *)
 Definition toy_net (n : N) (marks : list fmark) : net :=
-  fun a => if a =? 100 then toy_reply [0] (nthN marks n FAuth)
-           else toy_reply [a - 100] (nthN marks (a - 101) FAuth).
+  fun a => if a =? 100 then toy_reply a [0] (nthN marks n FAuth)
+           else toy_reply a [a - 100] (nthN marks (a - 101) FAuth).
 
 Definition agree_shadow_read (public : bool) (n : N) (marks : list fmark) (out : option string) : bool :=
   let sched := fun dm : datamap => seq 0 (List.length dm) in
